@@ -125,7 +125,9 @@ func (w *oracleWorkload) snapshot(ctx sdk.Context) *oracleSnap {
 func (w *oracleWorkload) number() (string, string) {
 	rng := w.run.Rng
 	var lit, cls string
-	switch rng.Intn(9) {
+	switch rng.Intn(10) {
+	case 9:
+		lit, cls = fmt.Sprintf("1.%02de308", rng.Intn(79)), "near-max-float"
 	case 0:
 		lit, cls = "0", "zero"
 	case 1:
@@ -267,8 +269,8 @@ func (w *oracleWorkload) Next(block int) []rig.Tx {
 		}
 	}
 	// keep the poor creator poor but able to start again sometimes
-	if !w.quiet && rng.Intn(12) == 0 {
-		out = append(out, r.Mk(r.Acc(3), &orTag{Kind: "fund"}, banktypes.NewMsgSend(r.Acc(3).Addr, w.poor.Addr, sdk.NewCoins(sdk.NewInt64Coin(rig.BondDenom, int64(5+rng.Intn(30)))))))
+	if !w.quiet && rng.Intn(40) == 0 {
+		out = append(out, r.Mk(r.Acc(3), &orTag{Kind: "fund"}, banktypes.NewMsgSend(r.Acc(3).Addr, w.poor.Addr, sdk.NewCoins(sdk.NewInt64Coin(rig.BondDenom, int64(5+rng.Intn(10)))))))
 	}
 	return out
 }
